@@ -142,31 +142,31 @@ func invParser(p *Parser) bool {
 //@ requires invParser(p) && 0 <= size && size <= 2147483647
 //@ modifies p.data, p.pos
 //@ allocates [input] len(p.input) + 1
-//@ ensures [inv] invParser(p)
+//@ ensures [inv] invParser(p) && p.pos >= old(p.pos)
 
 //@ func (*Parser).parseBinary
 //@ requires invParser(p) && 0 <= size && size <= 2147483647
 //@ modifies p.data, p.pos
 //@ allocates [input] len(p.input) + 1
-//@ ensures [inv] invParser(p)
+//@ ensures [inv] invParser(p) && p.pos >= old(p.pos)
 
 //@ func (*Parser).parseFloat
 //@ requires invParser(p) && 0 <= size && size <= 2147483647
 //@ modifies p.data, p.pos
 //@ allocates [input] len(p.input) + 1
-//@ ensures [inv] invParser(p)
+//@ ensures [inv] invParser(p) && p.pos >= old(p.pos)
 
 //@ func (*Parser).parseInt
 //@ requires invParser(p) && 0 <= size && size <= 2147483647
 //@ modifies p.data, p.pos
 //@ allocates [input] len(p.input) + 1
-//@ ensures [inv] invParser(p)
+//@ ensures [inv] invParser(p) && p.pos >= old(p.pos)
 
 //@ func (*Parser).parseUint
 //@ requires invParser(p) && 0 <= size && size <= 2147483647
 //@ modifies p.data, p.pos
 //@ allocates [input] len(p.input) + 1
-//@ ensures [inv] invParser(p)
+//@ ensures [inv] invParser(p) && p.pos >= old(p.pos)
 
 // --- recursion: every nesting level raises p.depth by one and no call is made above the limit, so the
 //     parseItem -> parseList -> parseItem recursion is at most MaxListDepth+1 frames deep ---
@@ -183,6 +183,37 @@ func invDepth(p *Parser) bool { return 0 <= p.depth && p.depth <= 64 }
 //@ requires invParser(p) && invDepth(p) && 0 <= size && size <= 2147483647
 //@ modifies p.data, p.pos, p.depth
 //@ allocates [input] len(p.input) + 1
-//@ ensures [inv]   invParser(p) && p.depth == old(p.depth)
+//@ ensures [inv]   invParser(p) && p.depth == old(p.depth) && p.pos >= old(p.pos)
 //@ ensures [deep]  old(p.depth) >= 64 ==> result1 != nil
-//@ loop 1 invariant [inv] invParser(p) && p.depth == old(p.depth)+1 && p.depth <= 64
+//@ loop 1 invariant [inv] invParser(p) && p.depth == old(p.depth)+1 && p.depth <= 64 && fresh(childItems)
+
+// --- string items ---
+
+//@ func (*Parser).parseJIS8
+//@ requires invParser(p)
+//@ modifies p.data, p.pos
+//@ ensures [inv] invParser(p) && p.pos >= old(p.pos)
+//@ loop 1 invariant [q] invParser(p) && 0 <= lastQuotePos && lastQuotePos <= i
+
+//@ func (*Parser).parseLocalizedStr
+//@ requires invParser(p)
+//@ modifies p.data, p.pos
+//@ ensures [inv] invParser(p) && p.pos >= old(p.pos)
+//@ loop 1 invariant [q] invParser(p) && 0 <= lastQuotePos && lastQuotePos <= i
+
+// Not verified (long hand-written scanners over strings.Builder); their effect on the scan state is assumed:
+
+//@ func (*Parser).parseASCIIStrict
+//@ trusted
+//@ modifies p.data, p.pos
+//@ trusts [inv] invParser(p) && p.pos >= old(p.pos)
+
+//@ func (*Parser).parseASCIIFast
+//@ trusted
+//@ modifies p.data, p.pos
+//@ trusts [inv] invParser(p) && p.pos >= old(p.pos)
+
+//@ func (*Parser).parseItemType
+//@ trusted
+//@ modifies p.data, p.pos
+//@ trusts [inv] invParser(p) && p.pos >= old(p.pos)
